@@ -262,6 +262,10 @@ type Reply struct {
 	// FlushAfterHeader calls Flush right after WriteHeader, before any body byte (what a
 	// streaming-minded handler or a reverse proxy with FlushInterval does).
 	FlushAfterHeader bool
+	// LowerCasePrefixTrailers writes the http.TrailerPrefix keys with the trailer's name in lower case
+	// ("Trailer:grpc-status"): a map key with a colon is not canonicalised by Header.Set, and net/http
+	// sends such a trailer like any other (HTTP/2 canonicalises the name, HTTP/1 field names are case-insensitive).
+	LowerCasePrefixTrailers bool
 	// PrefixTrailersEarly sets the http.TrailerPrefix keys before WriteHeader instead of after the body.
 	PrefixTrailersEarly bool
 	// Informational != 0: the handler first calls WriteHeader with this 1xx status.
@@ -408,6 +412,9 @@ func WriteReply(w http.ResponseWriter, rep *Reply, errs *[]string) {
 		if rep.DeclaredTrailers {
 			h[k] = append([]string(nil), v...)
 		} else if !rep.PrefixTrailersEarly {
+			if rep.LowerCasePrefixTrailers {
+				k = strings.ToLower(k)
+			}
 			h[http.TrailerPrefix+k] = append([]string(nil), v...)
 		}
 	}
